@@ -592,3 +592,5 @@ func PanicMsg(f func()) (msg string) {
 	f()
 	return ""
 }
+
+func WriteEvents() int { return 0 }
